@@ -73,6 +73,25 @@ class Classes:
         self.cid_of[cls] = cid
         self.kind_of[cls] = kind
 
+    @staticmethod
+    def use_class(cls, der):
+        """the pre-history on the parent class: build an instance, populate it, look fields up"""
+        if not der.get("use"):
+            return
+        try:
+            inst = cls()
+            v = py(der.get("use_value"))
+            if v is not None:
+                inst.set(v)
+            for name in [f.name for f in cls.field_schema][:2]:
+                try:
+                    inst[name] = None
+                except Exception:
+                    pass
+            inst.field_schema_mapping
+        except Exception:
+            pass
+
     def build(self, sj):
         import flatland
         k = sj["k"]
@@ -87,13 +106,29 @@ class Classes:
             cls = flatland.Array.of(subs[0])
         elif k == "multi":
             cls = flatland.MultiValue.of(subs[0])
-        elif k == "dict":
-            cls = flatland.Dict.of(*subs)
-        elif k == "sparse":
-            cls = flatland.SparseDict.of(*subs)
-        elif k == "schema":
+        elif k in ("dict", "sparse"):
+            base = flatland.Dict if k == "dict" else flatland.SparseDict
+            der = sj.get("derive")
+            if der:
+                # the class is DERIVED from a parent class with another field list that may already have been USED
+                # (an instance built and populated): `Parent.of(<the case's fields>)`
+                parent = base.of(*[self.build(s) for s in der["parent_subs"]]).named(sj["name"])
+                self.use_class(parent, der)
+                cls = parent.of(*subs)
+            else:
+                cls = base.of(*subs)
+        elif k in ("schema", "sparse_schema"):
             # declarative form: class F(Schema): a = String; b = Integer ...
-            cls = type(flatland.Schema)("F", (flatland.Schema,), {s["name"]: c for s, c in zip(sj["subs"], subs)})
+            base = flatland.Schema if k == "schema" else flatland.SparseSchema
+            der = sj.get("derive")
+            if der:
+                # class P(Schema): <parent fields>;  (P is used);  class F(P): <redeclared / added fields>
+                parent = type(base)("P", (base,), {s["name"]: self.build(s) for s in der["parent_subs"]})
+                self.use_class(parent, der)
+                cls = type(base)("F", (parent,), {s["name"]: c for s, c in zip(sj["subs"], subs)
+                                                 if s["name"] in der["declared"]})
+            else:
+                cls = type(base)("F", (base,), {s["name"]: c for s, c in zip(sj["subs"], subs)})
             for f in cls.field_schema:
                 for s2 in sj["subs"]:
                     if s2["name"] == f.name:
@@ -109,8 +144,10 @@ class Classes:
         over = {"optional": bool(sj["opt"])}
         if sj["default"] is not None:
             over["default"] = py(sj["default"])
-        if k in MAP_KINDS or k == "schema":
+        if k in MAP_KINDS or k in ("schema", "sparse_schema"):
             over["policy"] = None if sj["policy"] == "none" else sj["policy"]
+        if k == "sparse_schema":
+            over["minimum_fields"] = "required" if sj["minreq"] else None
         if k in ("date", "joined"):
             over = {"optional": bool(sj["opt"])}
         if k == "sparse":
@@ -143,6 +180,14 @@ def kind_of_element(el):
         return "integer"
     if isinstance(el, flatland.String):
         return "string"
+    return "other"
+
+
+def kind_of_class(cls):
+    import flatland
+    for k, base in (("integer", flatland.Integer), ("string", flatland.String)):
+        if isinstance(cls, type) and issubclass(cls, base):
+            return k
     return "other"
 
 
@@ -248,7 +293,34 @@ class Exec:
             return target.field_schema[0] if target.field_schema else None
         return None
 
+    @staticmethod
+    def touch(el):
+        """READ the navigation properties of an element and of everything below it (reading is part of the history:
+        nothing read here may be remembered by the library)"""
+        from flatland.schema.base import Element
+        if not isinstance(el, Element):
+            return
+        try:
+            below = [el] + list(itertools.islice(el.all_children, 200))
+        except Exception:
+            below = [el]
+        for e in below:
+            for read in (lambda: e.root, lambda: list(itertools.islice(e.path, CHAIN_BOUND)),
+                         lambda: list(itertools.islice(e.parents, CHAIN_BOUND)), lambda: e.fq_name(),
+                         lambda: e.flattened_name()):
+                try:
+                    read()
+                except Exception as exc:
+                    if type(exc).__name__ == "CaseTimeout":
+                        raise
+
     def mk_arg(self, target, key, a):
+        r = self.mk_arg0(target, key, a)
+        if a.get("touch") and r[0] == "elem":
+            self.touch(r[1])       # the argument is looked at before it is handed over
+        return r
+
+    def mk_arg0(self, target, key, a):
         if "v" in a:
             return ("plain", py(a["v"]))
         if "pool" in a:
@@ -520,6 +592,14 @@ class Exec:
         if op is None:
             info["out"] = {"skip": "nokindop"}
             return self.finish_step(info)
+        if op["op"] == "observe":
+            # only READ: every reachable element, every pooled (detached) element
+            for e, _ in self.reach():
+                self.touch(e)
+            for e in self.pool:
+                self.touch(e)
+            info["out"] = "ok"
+            return self.finish_step(info)
         saved_pool = list(self.pool)
         try:
             specs = []
@@ -633,6 +713,8 @@ def gen_schema(rng, cid, depth, name=None, kinds=None, allow_default=True, scala
             s["minreq"] = rng.random() < 0.5
         if allow_default and rng.random() < 0.15:
             s["default"] = gen_value(rng, s, valid=True)
+        if rng.random() < 0.15:
+            derive_mapping(rng, cid, s)
     else:
         if allow_default and rng.random() < 0.3:
             s["default"] = gen_scalar_raw(rng)
@@ -656,7 +738,7 @@ def gen_value(rng, s, valid=True, depth=3):
         n = rng.choice([0, 1, 2, 2, 3, 4])
         return {"l": [gen_value(rng, s["subs"][0], valid, depth - 1) for _ in range(n)]}
     fields = s["subs"]
-    if k == "dict" or rng.random() < 0.5:
+    if k in ("dict", "schema") or rng.random() < 0.5:
         chosen = list(fields)
     else:
         chosen = [f for f in fields if rng.random() < 0.6]
@@ -672,7 +754,7 @@ def gen_value(rng, s, valid=True, depth=3):
 def gen_arg(rng, member, p_elem=0.3, p_pool=0.15, valid=True, cid=None):
     r = rng.random()
     if r < p_pool:
-        return {"pool": rng.randint(0, 5)}
+        return {"pool": rng.randint(0, 5), "touch": rng.random() < 0.5}
     v = gen_value(rng, member, valid=valid) if member is not None else gen_scalar_raw(rng)
     if r < p_pool + p_elem:
         a = {"new": v}
@@ -680,6 +762,8 @@ def gen_arg(rng, member, p_elem=0.3, p_pool=0.15, valid=True, cid=None):
             a["blank"] = True
         if rng.random() < 0.4:
             a["foreign"] = True      # the element currently belongs to another container
+        if rng.random() < 0.5:
+            a["touch"] = True        # root / path / parents / fq_name of the argument are read before it is handed over
         return a
     return {"v": v}
 
@@ -699,7 +783,7 @@ def gen_slice(rng):
 
 SEQ_OPS = ["append", "append", "extend", "iadd", "insert", "insert", "setitem", "setitem", "setslice", "setslice",
            "delitem", "delslice", "pop", "pop", "remove", "reverse", "sort", "set", "set_default",
-           "len", "getitem", "getslice", "contains", "index", "count", "clear", "imul", "imul"]
+           "len", "getitem", "getslice", "contains", "index", "count", "clear", "imul", "imul", "observe"]
 
 
 def flat_keys(rng, s, prefix="", sep="_"):
@@ -708,7 +792,7 @@ def flat_keys(rng, s, prefix="", sep="_"):
     k = s["k"]
     if k in ("integer", "string", "joined"):
         yield (prefix + name) if name else prefix.rstrip(sep)
-    elif k in ("dict", "sparse", "schema", "date"):
+    elif k in ("dict", "sparse", "schema", "sparse_schema", "date"):
         p2 = (prefix + name + sep) if name else prefix
         for f in s["subs"]:
             yield from flat_keys(rng, f, p2, sep)
@@ -774,14 +858,69 @@ def gen_seq_op(rng, member, valid=True, seq=None):
 
 
 MAP_OPS = ["setitem", "setitem", "setitem", "delitem", "pop", "popitem", "clear", "update", "update", "ior",
-           "update_items", "update_items",
+           "update_items", "update_items", "observe",
            "setdefault", "get", "set", "set", "set_default", "contains", "len"]
+
+
+GHOST = []      # names declared only on the parent class of a derived mapping class (set per op by gen_map_op)
 
 
 def gen_key(rng, fields, p_undeclared=0.2):
     if rng.random() < p_undeclared or not fields:
+        if GHOST and rng.random() < 0.6:
+            return rng.choice(GHOST)
         return rng.choice(UNDECLARED)
     return rng.choice(fields)["name"]
+
+
+def derive_mapping(rng, cid, s):
+    """make mapping schema `s` a class DERIVED from a (mostly already used) parent class with another field list:
+    `Parent.of(fields)` for Dict/SparseDict, `class F(Parent): ...` for the declarative kinds"""
+    import copy
+    subs = s["subs"]
+
+    def scalar(name, kind=None):
+        return {"cid": cid(), "k": kind or rng.choice(["integer", "string"]), "name": name, "opt": rng.random() < 0.3,
+                "policy": "subset", "minreq": False, "isa": [], "default": None, "subs": []}
+
+    def retyped(f):
+        other = {"integer": "string", "string": "integer"}.get(f["k"], "string")
+        return scalar(f["name"], other)
+
+    extra = [scalar(n) for n in rng.sample(["zz", "q", "w", "ab"], rng.randint(1, 2))]
+    if s["k"] in ("dict", "sparse"):
+        r = rng.random()
+        if r < 0.4:        # the parent is WIDER: fields dropped in the derived class
+            parent = [copy.deepcopy(f) for f in subs] + extra
+        elif r < 0.7:      # same names, other types
+            parent = [retyped(f) if rng.random() < 0.6 else copy.deepcopy(f) for f in subs] + (extra if rng.random() < 0.5 else [])
+        else:              # narrower / disjoint parent: fields added in the derived class
+            parent = [copy.deepcopy(f) for f in subs[:rng.randint(0, max(0, len(subs) - 1))]] + (extra if rng.random() < 0.5 else [])
+            if not parent:
+                parent = extra
+        for f in parent:   # fresh class ids for the parent's copies
+            for x in walk_schemas(f):
+                x["cid"] = cid()
+        der = {"how": "of", "parent_subs": parent}
+    else:
+        j = rng.randint(0, len(subs))          # subs[:j] are inherited as they are, subs[j:] are declared on the subclass
+        kept = [copy.deepcopy(f) for f in subs[:j]]
+        redecl = [retyped(f) for f in subs[j:] if rng.random() < 0.6]
+        parent = kept + redecl
+        if not parent:
+            return
+        for f in parent:
+            for x in walk_schemas(f):
+                x["cid"] = cid()
+        der = {"how": "subclass", "parent_subs": parent, "declared": [f["name"] for f in subs[j:]]}
+        if not der["declared"] and rng.random() < 0.5:
+            return
+    der["use"] = rng.random() < 0.8
+    pschema = dict(s, subs=der["parent_subs"], k="sparse" if s["k"] in ("sparse", "sparse_schema") else "dict")
+    der["use_value"] = gen_value(rng, pschema, valid=True)
+    names = {f["name"] for f in subs}
+    der["ghost"] = [f["name"] for f in der["parent_subs"] if f["name"] not in names]
+    s["derive"] = der
 
 
 def _dedupe(kvs):
@@ -812,6 +951,7 @@ def decorate_element_arg(rng, a):
 
 def gen_map_op(rng, s, valid=True, flat=False):
     fields = s["subs"] if s is not None else []
+    GHOST[:] = ((s or {}).get("derive") or {}).get("ghost", [])
     name = rng.choice(MAP_OPS + (["set_flat", "set_flat"] if flat else []))
     op = {"op": name}
     byname = {f["name"]: f for f in fields}
